@@ -80,6 +80,67 @@ def site_terminal(tmux, term, cur, other=None):
     return t.num_tmux_layers
 
 
+def site_config_seq(settings):
+    """SEVERAL TupimageTerminal(num_tmux_layers='auto') objects made one after another in ONE pty child, the environment
+    (TMUX, TERM) changed before each.  Returns the list of GraphicsTerminal.num_tmux_layers, or an error string."""
+    r, w = os.pipe()
+    td = tempfile.mkdtemp(prefix="vc11s")
+    pid, master = pty.fork()
+    if pid == 0:
+        res = "child-failed"
+        try:
+            os.close(r)
+            for k in list(os.environ):
+                if k.startswith("TUPIMAGE") or k in ("SSH_CLIENT", "SSH_TTY", "SSH_CONNECTION"):
+                    del os.environ[k]
+            os.environ["HOME"] = td
+            os.environ["XDG_CONFIG_HOME"] = td
+            from tupimage import tupimage_terminal as tt
+            out = []
+            for j, (tmux, term) in enumerate(settings):
+                for k, v in (("TMUX", tmux), ("TERM", term)):
+                    if v is None:
+                        os.environ.pop(k, None)
+                    else:
+                        os.environ[k] = v
+                t = tt.TupimageTerminal(config="DEFAULT", id_database=os.path.join(td, f"ids{j}.db"), terminal_name="vt", terminal_id="vt-1",
+                                        session_id="s-1", out_display=io.BytesIO())
+                out.append(str(t.term.num_tmux_layers))
+            res = "ok " + " ".join(out)
+        except BaseException as e:  # noqa
+            res = "child-exception " + repr(e).replace("\n", " ")[:300]
+        try:
+            os.write(w, res.encode())
+        finally:
+            os._exit(0)
+    os.close(w)
+    buf = b""
+    try:
+        while True:
+            rl, _, _ = select.select([r, master], [], [], 60)
+            if not rl:
+                break
+            if master in rl:
+                try:
+                    os.read(master, 4096)
+                except OSError:
+                    pass
+            if r in rl:
+                chunk = os.read(r, 65536)
+                if not chunk:
+                    break
+                buf += chunk
+    finally:
+        os.close(r)
+        try:
+            os.close(master)
+        except OSError:
+            pass
+        os.waitpid(pid, 0)
+        shutil.rmtree(td, ignore_errors=True)
+    return buf.decode("utf-8", "replace")
+
+
 def site_config(tmux, term, cfg, other=None):
     """TupimageTerminal(num_tmux_layers=cfg) constructed in a pty child (it opens /dev/tty).
     Returns (config value after construction, GraphicsTerminal.num_tmux_layers, template hex) or an error string."""
@@ -355,6 +416,21 @@ def check_case(ctx: Ctx, c: dict):
             elif b_term != cfg:
                 ctx.violation("explicitly configured number of tmux layers is not used", c, {"layers": b_term, "configured": cfg},
                               key="c11-config-explicit")
+    elif k == "envseq":
+        # several terminal objects in one process, the environment changed in between: each auto-detection must follow the
+        # environment in force when THAT object is made
+        r = site_config_seq([(x[0], x[1]) for x in c["settings"]])
+        parts = r.split(" ")
+        if parts[0] != "ok" or len(parts) != 1 + len(c["settings"]):
+            from .common import ToolFailure
+            raise ToolFailure(f"pty-hosted TupimageTerminal sequence failed: {r!r}")
+        for j, ((tmux, term), got) in enumerate(zip(c["settings"], parts[1:])):
+            spec = d.ask(f"spec_detect {_optb(tmux)} {_optb(term)}") == "1"
+            ctx.count("envseq:objects")
+            if int(got) != (1 if spec else 0):
+                ctx.violation("TupimageTerminal auto-detection disagrees with the rule TMUX set and TERM names screen or tmux "
+                              "(an object made after the environment changed)", c,
+                              {"object": j, "TMUX": tmux, "TERM": term, "layers": int(got), "spec": spec}, key="c11-detect-config-sequence")
     elif k == "tmux":
         _real_tmux(ctx, d, c)
     else:
@@ -624,6 +700,17 @@ def cases(ctx: Ctx):
         # explicitly configured layer counts stay what they are
         yield {"k": "env", "tmux": tmv, "term": rng.choice(["xterm-kitty", "tmux-256color"]), "cur": rng.choice([0, 2]), "cfg": rng.choice([0, 1, 2, 4]),
                "site2": True, "other": dict(other)}
+    # (3b) several terminal objects in ONE process with the environment changed in between (an answer remembered from an
+    #      earlier object's environment must not be reused): sequences over the TMUX x TERM values, same TERM with TMUX
+    #      appearing / disappearing and the reverse
+    seq_vals = [(None, "xterm-kitty"), ("/tmp/tmux-0/default,1,0", "xterm-kitty"), ("/tmp/tmux-0/default,1,0", "tmux-256color"),
+                (None, "tmux-256color"), ("/tmp/tmux-0/default,1,0", "screen"), (None, "screen"), ("", "tmux"), ("/tmp/tmux-0/default,1,0", "tmux")]
+    for a_ in seq_vals:
+        for b_ in seq_vals:
+            if a_ != b_ and (a_[1] == b_[1] or a_[0] == b_[0]):
+                yield {"k": "envseq", "settings": [list(a_), list(b_), list(a_)]}
+    for _ in range(6 if quick else 60):
+        yield {"k": "envseq", "settings": [list(rng.choice(seq_vals)) for _ in range(rng.randrange(2, 6))]}
     # (4) supporting: real tmux as an oracle of the unwrapping specification
     if not quick:
         for desc in [{"type": "T", "f": {"image_id": 5, "medium": "DIRECT"}, "data": {"hex": "00ff1b1b5c"}},
